@@ -23,9 +23,9 @@ import (
 // C16: any call sequence is safe; Close is idempotent; parity with the standard library.
 
 type C16Case struct {
-	Set PSetting `json:"set"`
-	Seq string   `json:"seq"` // one letter per call: e=Write(empty) s=Write(small) l=Write(large) F C R
-	Seed uint64  `json:"seed"`
+	Set  PSetting `json:"set"`
+	Seq  string   `json:"seq"` // one letter per call: e=Write(empty) s=Write(small) l=Write(large) F C R
+	Seed uint64   `json:"seed"`
 }
 
 func c16Large(set PSetting) int {
